@@ -27,3 +27,5 @@ def run(ck):
     fresh.constructor_state(ck, "C20.R2")            # prefixes and modes used by bin()/hex() and by the parsing constructor are the object's own
     pipeline.rounding_table(ck, "C05.R1", "C05.R2", "C05.R3")   # value-mode round trip: the parsed value is re-quantized by the configured mode
     pipeline.overflow_dispatch(ck, "C02.R6", "C03.R2", flags.handler_roles_quiet(ck.prog))
+    fresh.no_hidden_state(ck, "C20.R8")                  # results depend on the documented state only (no caches / memos)
+    strings.base_numeral(ck, "C11.R7")
